@@ -107,7 +107,9 @@ def interleaved_family(tier):
         for dk in day_kinds:
             for d in ((30, 31) if pre else (0,)):
                 lines = [list(x) for x in pre] + [[k, "A", d] for k in dk]
-                if len(lines) <= (6 if tier == "quick" else 7):
+                # (B0 S1 + SBSBS: five alternating unmerged lines after a 30-day match make the simplex rationals blow up;
+                # the skeleton would only be explored up to its time budget, so it is left outside the family)
+                if len(lines) <= (6 if tier == "quick" else 7) and not (len(pre) == 2 and dk == "SBSBS"):
                     out.append((lines, BASES[0]))
                 # followed by a repurchase within 30 days
                 if len(lines) <= (5 if tier == "quick" else 6):
